@@ -11,7 +11,8 @@ META = {
     "technique": "Coq proof over a Gallina transliteration of JSONMinify (character automaton with state inQuotes/escape) that "
                  "removing whitespace from any whitespace layout of any well-formed JSON value yields exactly its compact text; "
                  "vm_compute correspondence with the real JSONMinify / json.MarshalIndent / json.Marshal; oracle on the real "
-                 "WriteJSON through an httptest recorder with and without gzip; go/ast enumeration of JSONMinify call sites",
+                 "WriteJSON through an httptest recorder with and without gzip, and concurrently from 16 goroutines into a slow "
+                 "chunked ResponseWriter; go/ast enumeration of JSONMinify call sites",
     "text": "Theorem C19_minify_canonical: for every well-formed JSON value v (strings spelled as arbitrary sequences of plain "
             "characters, two-character escapes and \\uXXXX escapes; arbitrary nesting) and every layout l that puts any run of "
             "unicode.IsSpace characters at any token boundary, minify (render l v) = compact v, i.e. structure and every string "
@@ -20,7 +21,9 @@ META = {
             "keeps the witness {\"a\":\"x\\\\\\\\\", \"b\":\"c d\"} of the scanner before the repair. The model is compared "
             "with the real JSONMinify on every run (arbitrary and JSON-shaped text), the real MarshalIndent text is read back "
             "into (layout, value) and re-rendered by the model, and the real WriteJSON body is compared with json.Marshal of "
-            "the value. full",
+            "the value. Concurrent use (16 goroutines writing large distinct gzip responses through the real WriteJSON "
+            "into a slow ResponseWriter, each body compared with its own value; race detector in the thorough tier) is observed, "
+            "not proved: the model is sequential. full",
     "note": "Trusted: Coq kernel; hand-written model of JSONMinify and unicode.IsSpace tied to the code by the correspondence run; "
             "the Python JSON reader that proposes (layout, value) for a real text (its proposal is re-checked by Coq: wf, fits, "
             "render = real indented text, compact = real json.Marshal text); compress/gzip as a section hypothesis; the four "
@@ -309,6 +312,38 @@ def drive(ck, binp, wcases, mcases, lcases, tag):
             [M.get(nw + nm + i) for i in range(len(lcases))], sites)
 
 
+def gen_conc_values(seed, n):
+    """n large, distinct, compressible JSON values (each well above the 4096-byte gzip threshold)"""
+    import random
+    rng = random.Random("C19-conc-%s" % seed)
+    vals = []
+    for k in range(n):
+        rows = []
+        for i in range(rng.randint(60, 110)):
+            rows.append({"id": i, "owner": "value-%d of run %s" % (k, seed), "text": "a reasonably long and very repetitive column value",
+                         "tricky": gen_string(rng)})
+        vals.append({"rows": rows, "count": len(rows), "tail\\": gen_string(rng) + "\\"})
+    return vals
+
+
+def drive_conc(ck, binp, clients, vals, tag, race_log=None):
+    """the real WriteJSON from <clients> goroutines at once; returns (n, n_gzip, bad indices) or None"""
+    inp = os.path.join(ck.work, "in-%s.txt" % tag)
+    outp = os.path.join(ck.work, "out-%s.txt" % tag)
+    with open(inp, "w") as f:
+        f.write("C %d %s\n" % (clients, hx(json.dumps(vals, ensure_ascii=False).encode())))
+    rc, log = vf.run_bin(binp, "^TestVerifC19$", {"VERIF_IN": inp, "VERIF_OUT": outp, "HOME": os.path.join(ck.work, "home")})
+    if race_log is not None:
+        race_log.append(log)
+    if rc != 0:
+        return None
+    for line in open(outp):
+        f = line.split()
+        if len(f) >= 5 and f[1] == "C" and f[2] != "err":
+            return int(f[2]), int(f[3]), ([] if f[4] == "-" else [int(x) for x in f[4].split(",")])
+    return None
+
+
 def oracle(ck, wcases, mres_l, lcases, wres, nontriv):
     """the property evaluated on the real outputs"""
     for i, (gz, thr, mode, text) in enumerate(wcases):
@@ -416,6 +451,52 @@ def run(ck):
     nontriv = set()
     oracle(ck, wcases, lres, lcases, wres, nontriv)
 
+    # ---- concurrency (observed, not modelled): many goroutines write large distinct values through the real
+    # WriteJSON with gzip accepted into a slow chunked ResponseWriter; every decoded body must be its own value
+    conc, conc_info = None, {}
+    if ck.replay_file:
+        conc = (json.load(open(ck.replay_file))["replay"] or {}).get("conc")
+    else:
+        conc = {"seed": ck.rng.randint(0, 10 ** 9), "clients": 16, "n": 16 * (12 if quick else 40)}
+    if conc:
+        vals = gen_conc_values(conc["seed"], conc["n"])
+        t5 = time.time()
+        r = None
+        for attempt in range(3 if ck.replay_file else 1):
+            r = drive_conc(ck, binp, conc["clients"], vals, "conc%d" % attempt)
+            if r is None or r[2]:
+                break
+        ck.cov["stage_seconds"]["concurrent_run"] = round(time.time() - t5, 1)
+        if r is None:
+            ck.violation("harness-run", "concurrent WriteJSON run failed", replay={"conc": conc}, found_input=False)
+        else:
+            conc_info = {"concurrent_values": r[0], "concurrent_sent_gzip": r[1], "concurrent_clients": conc["clients"]}
+            if r[2]:
+                ck.violation("concurrent-body-differs", "%d of %d responses written concurrently by %d goroutines (gzip accepted, bodies of "
+                             "%d-%d bytes, slow ResponseWriter) did not decode to their own value, e.g. value %d" % (
+                                 len(r[2]), r[0], conc["clients"], min(len(json.dumps(v)) for v in vals), max(len(json.dumps(v)) for v in vals),
+                                 r[2][0]), replay={"conc": conc})
+            elif r[1] < r[0] // 2:
+                ck.notes.append("concurrent run: only %d of %d responses were gzip-compressed" % (r[1], r[0]))
+        if not quick and not ck.replay_file and not any(v["signature"] == "concurrent-body-differs" for v in ck.viol):
+            okr, binr = vf.go_test_build(ck.work, "internal/util", {"internal/util/zz_verif_c19_test.go":
+                                         os.path.join(vf.HARNESS, "C19", "c19_test.go")}, "c19race.test", race=True)
+            if okr:
+                logs = []
+                rr = drive_conc(ck, binr, conc["clients"], vals[:160], "race", race_log=logs)
+                ck.cov["race_detector_run"] = "ok" if rr is not None and not rr[2] else "failed"
+                if rr is None and "DATA RACE" in (logs[0] if logs else ""):
+                    ck.violation("concurrent-data-race", "the race detector reports a data race while WriteJSON serves concurrent gzip responses:\n" +
+                                 logs[0][logs[0].find("DATA RACE") - 20:][:1200], replay={"conc": conc})
+                elif rr is None:
+                    ck.violation("harness-run", "race-enabled concurrent run failed:\n" + (logs[0] if logs else "")[-1200:],
+                                 replay={"conc": conc}, found_input=False)
+                elif rr[2]:
+                    ck.violation("concurrent-body-differs", "race build: %d of %d concurrent responses did not decode to their own value" % (
+                        len(rr[2]), rr[0]), replay={"conc": conc})
+            else:
+                ck.notes.append("race-enabled harness did not build: " + binr[-300:])
+
     # ---- call sites of JSONMinify: every caller must hand it encoder output
     ck.cov["call_sites"] = ["%s:%s%s" % (f, fn, "" if ind else " (no MarshalIndent in the function)") for f, fn, ind in sites]
     if not ck.replay_file:
@@ -428,7 +509,7 @@ def run(ck):
                              "output: the theorem's domain (layouts of well-formed JSON) is not known to cover it" % (f, fn),
                              replay={"sites": sites}, found_input=False)
 
-    ck.cov["evaluations"] = len(wcases) + len(mcases) + len(lcases)
+    ck.cov["evaluations"] = len(wcases) + len(mcases) + len(lcases) + conc_info.get("concurrent_values", 0)
     ck.cov["input_distribution"] = {
         "writejson_values": len(wcases), "as_rawmessage": sum(1 for w in wcases if w[2] == "R"),
         "accept_gzip": sum(1 for w in wcases if w[0] == 1),
@@ -437,6 +518,7 @@ def run(ck):
         "with_backslash": sum(1 for w in wcases if "\\" in w[3]),
         "arbitrary_strings": len(mcases), "json_with_unicode_layout": len(lcases),
         "max_body_bytes": max([len(unhx(r[4])) for r in wres if r and r[0] != "err"] or [0])}
+    ck.cov["input_distribution"].update(conc_info)
     for i in range(min(3, len(wcases))):
         r = wres[i]
         if r and r[0] != "err":
@@ -449,11 +531,9 @@ def run(ck):
 
     # ---- correspondence: model (vm_compute) vs implementation
     if not broken and not found:
-        lines = ["From Common Require Import Base.", "From Json Require Import Model.", "Open Scope N_scope.",
-                 "Definition mcases : list (str * str) := ["]
         allm = [(t, g) for t, g in zip(mcases, mres)] + [(t, g) for (t, _), g in zip(lcases, lres)]
-        lines.append(";\n".join("(%s, %s)" % (vf.vrunes(t), vf.vrunes(g)) for t, g in allm if g is not None))
-        lines.append("].\nDefinition wcases : list (layout * jv * str * str) := [")
+        allm = [(t, g) for t, g in allm if g is not None]
+        ml = ["(%s, %s)" % (vf.vrunes(t), vf.vrunes(g)) for t, g in allm]
         wl, widx = [], []
         for i, (gz, thr, mode, text) in enumerate(wcases):
             r = wres[i]
@@ -471,8 +551,7 @@ def run(ck):
                 continue
             wl.append("(%s, %s, %s, %s)" % (coq_layout(lay), term, vf.vrunes(ind), vf.vrunes(mar)))
             widx.append(i)
-        lines.append(";\n".join(wl))
-        lines.append("""].
+        TAIL = """].
 Definition mbad (i : nat) (c : str * str) : list nat := if str_eqb (minify (fst c)) (snd c) then [] else [i].
 Definition wbad (i : nat) (c : layout * jv * str * str) : list nat :=
   let '(l, v, ind, mar) := c in
@@ -486,16 +565,35 @@ Definition MB := Eval vm_compute in idx mbad 0 mcases.
 Definition WB := Eval vm_compute in idx wbad 0 wcases.
 Eval vm_compute in MB.
 Eval vm_compute in WB.
-""")
+"""
+        K = 4
+
+        def shard(j):
+            ma, mz = j * len(ml) // K, (j + 1) * len(ml) // K
+            wa, wz = j * len(wl) // K, (j + 1) * len(wl) // K
+            text = "\n".join(["From Common Require Import Base.", "From Json Require Import Model.", "Open Scope N_scope.",
+                              "Definition mcases : list (str * str) := [", ";\n".join(ml[ma:mz]),
+                              "].\nDefinition wcases : list (layout * jv * str * str) := [", ";\n".join(wl[wa:wz]), TAIL])
+            rc, out = vf.coq_run(GROUP, os.path.join(ck.work, "shard%d" % j), "cases%d" % j, text, timeout=600)
+            ls = re.findall(r"=\s*(\[[^\]]*\]|nil)\s*(?:%\w+)?\s*:\s*list nat", out, re.S)
+            if rc != 0 or len(ls) != 2:
+                return out
+            m_, w_ = [[int(x) for x in re.findall(r"\d+", l)] for l in ls]
+            return [ma + x for x in m_], [8 * (wa + x // 8) + x % 8 for x in w_]
         t4 = time.time()
-        rc, out = vf.coq_run(GROUP, ck.work, "cases", "\n".join(lines), timeout=600)
+        from concurrent.futures import ThreadPoolExecutor
+        with ThreadPoolExecutor(max_workers=K) as ex:
+            shards = list(ex.map(shard, range(K)))
         ck.cov["stage_seconds"]["model_evaluation"] = round(time.time() - t4, 1)
-        lists = re.findall(r"=\s*(\[[^\]]*\]|nil)\s*(?:%\w+)?\s*:\s*list nat", out, re.S)
+        fails = [x for x in shards if isinstance(x, str)]
+        rc, out = (1, fails[0]) if fails else (0, "")
+        lists = [None, None]
         if rc != 0 or len(lists) != 2:
             ck.violation("correspondence-eval", "model evaluation failed:\n" + out[-1500:], replay={"log": out[-3000:]},
                          found_input=False)
         else:
-            mb, wb = [[int(x) for x in re.findall(r"\d+", l)] for l in lists]
+            mb = [x for sh in shards for x in sh[0]]
+            wb = [x for sh in shards for x in sh[1]]
             ck.cov["traces_validated_against_impl"] = len(allm) + len(widx)
             what = {1: "value read back from the real text is not well-formed for the model", 2: "layout does not fit",
                     3: "render(layout, value) differs from the real MarshalIndent text", 4: "compact(value) differs from the real json.Marshal text",
